@@ -67,23 +67,9 @@ def units(tier):
             nm = name + (f"_v{v}" if op.variants > 1 else "")
             u[nm] = Unit(nm, PROP, fn, functions=[op.qual(), API + "SwitcherApi._login"], witness=op_witness(PROP, op, v))
 
-    # ---- encoder contracts proved from their bodies
-    u["enc_minutes"] = equiv_unit(PROP, "enc_minutes", T + "minutes_to_hexadecimal_seconds", "minutes_spec",
-                                  lambda ctx: [sym_int(ctx, "minutes")], kind="enc_minutes", prop_level=False)
-
-    def mk_td(ctx):
-        secs = sym_int(ctx, "seconds", -10 ** 7, 10 ** 7)
-        ctx.inputs["full_time"] = SymTimedelta(secs)
-        return [ctx.inputs["full_time"]]
-    u["enc_timedelta"] = equiv_unit(PROP, "enc_timedelta", T + "timedelta_to_hexadecimal_seconds", "auto_shutdown_spec", mk_td,
-                                    kind="enc_timedelta", spec_args=lambda a: [a[0].secs], prop_level=False)
-    for L in range(0, 41):
-        def mk_name(ctx, L=L):
-            from .apiops import ops as _ops
-            args, info = _ops()["set_device_name"].mkargs(None, ctx, L)
-            return args
-        u[f"enc_name_len{L}"] = equiv_unit(PROP, f"enc_name_len{L}", T + "string_to_hexadecimale_device_name", "name_spec", mk_name,
-                                           kind="enc_name", prop_level=False)
+    # ---- the call-site contracts this property relies on, proved from the callees' bodies (phase 1)
+    from .deps import contract_units
+    u.update(contract_units(PROP))
 
     def canary(ip, ctx):
         op = ops()["control_device"]
@@ -105,9 +91,8 @@ def replay_case(o):
     name = o["name"].split("/")
     if "_canary" in o["name"]:
         return {"prop": PROP, "kind": "canary", "inputs": i}
-    if name[1].startswith("enc_"):
-        k = "enc_name" if name[1].startswith("enc_name") else name[1]
-        return {"prop": PROP, "kind": k + "_check", "inputs": i}
+    if name[1].startswith("dep_"):
+        return None
     if "R1" not in i:
         return None
     from .apiops import ops as _ops
